@@ -12,6 +12,8 @@ def check(ctx):
     ctx.rule("C05.W4", "a successful file-store write always replaces the target (so its modified time advances past its inputs')")
     ctx.rule("C05.W3", "only write nodes and the redirected output are required: with nothing stale and no output the required set is empty")
     ctx.assume("run-time counts of reads/writes are not observed; 'read at most once' additionally rests on C04")
+    from .engineeval import rule_engine_evaluated
+    ctx.run(rule_engine_evaluated, "C05.W2", None, ("order", "once", "complete"))
     er = E.discover(ctx.model)
     rr = R.discover(ctx.model, er)
     ctx.run(S.rule_stale_table, "C05.T1", rr)
